@@ -256,23 +256,29 @@ def foerster_golden_rule(cx, N, td):
 @harness("C06", "spectral_density",
          quick=[dict(ftype="OverdampedBrownian", Nt=3, grid="dyadic"), dict(ftype="UnderdampedBrownian", Nt=3, grid="dyadic"),
                 dict(ftype="OverdampedBrownian", Nt=3, grid="fft"), dict(ftype="OverdampedBrownian", Nt=2, grid="offset"),
-                dict(ftype="UnderdampedBrownian", Nt=2, grid="offset")],
+                dict(ftype="UnderdampedBrownian", Nt=2, grid="offset"),
+                dict(ftype="OverdampedBrownian", Nt=3, grid="dyadic", units="1/cm")],
          thorough=[dict(ftype=f, Nt=n, grid="dyadic") for f in ("OverdampedBrownian", "UnderdampedBrownian")
                    for n in (3, 5)] + [dict(ftype="OverdampedBrownian", Nt=n, grid="fft") for n in (3, 4, 57)] +
                   [dict(ftype=f, Nt=n, grid="offset") for f in ("OverdampedBrownian", "UnderdampedBrownian")
-                   for n in (2, 4)],
+                   for n in (2, 4)] +
+                  [dict(ftype=f, Nt=3, grid="dyadic", units=u) for f in ("OverdampedBrownian", "UnderdampedBrownian")
+                   for u in ("1/cm", "eV")],
          functions=[F_SD + ":SpectralDensity.__init__", F_SD + ":SpectralDensity._make_overdamped_brownian",
                     F_SD + ":SpectralDensity._make_underdamped_brownian",
                     F_SD + ":SpectralDensity.get_FTCorrelationFunction"],
-         bound="symmetric dyadic frequency grid of 2*Nt points (Nt=3, thorough 5) containing the origin, and a "
+         bound="with units=u the Fourier-transformed correlation function is requested inside energy_units(u); "
+               "symmetric dyadic frequency grid of 2*Nt points (Nt=3, thorough 5) containing the origin, and a "
                "half-step offset one that misses it (the other branch of get_FTCorrelationFunction); on both also "
                "C(w) tanh(w/2kT) = (1 + tanh(w/2kT)) J(w); on grids produced by a time axis "
                "(Nt=3, thorough also 4 and 57) only finiteness; reorganisation energy, correlation "
                "time / damping, frequency and temperature symbolic and positive; tanh and exp uninterpreted with "
                "exp(-2x)(1+tanh x) = 1-tanh x instantiated at the grid arguments",
          out="numerical agreement of the FFT-based correlation function with (1+coth) J")
-def spectral_density(cx, ftype, Nt, grid):
+def spectral_density(cx, ftype, Nt, grid, units=None):
+    import contextlib
     import quantarhei as qr
+    in_units = (lambda: qr.energy_units(units)) if units else contextlib.nullcontext
     from quantarhei.core.units import kB_int
     with cx.concrete():
         if grid == "dyadic":
@@ -332,7 +338,8 @@ def spectral_density(cx, ftype, Nt, grid):
     for j in range(1, z0):
         cx.prove_eq("odd[%d]" % j, J[z0 - j], -J[z0 + j], tol=1e-9)
     # C(-w) = exp(-w/kT) C(w)
-    ft = sd.get_FTCorrelationFunction(temperature=T)
+    with in_units():
+        ft = sd.get_FTCorrelationFunction(temperature=T)
     cx.check_div_obligations("finite")
     C = ft.data
     for j in range(1, z0):
